@@ -527,7 +527,7 @@ PROPS = {
         "explanation": "C18.* theorems; ffi stream: C symbols vs native API vs handle-layer model vs specification.",
     },
     "C19": {
-        "modules": ["RsddModel.Props.C19", "RsddModel.Props.TieCompile", "RsddModel.Props.TieCompileSource", "RsddModel.Props.TieBddCore", "RsddModel.Props.TieBddCoreSource", "RsddModel.Props.TieCli"],
+        "modules": ["RsddModel.Props.C19", "RsddModel.Props.C19Order", "RsddModel.Props.TieCompile", "RsddModel.Props.TieCompileSource", "RsddModel.Props.TieBddCore", "RsddModel.Props.TieBddCoreSource", "RsddModel.Props.TieCli", "RsddModel.Props.TieCliSource"],
         "streams": [CLI_STREAM],
         "prebuild": CLI_PREBUILD,
         "rule": "the three binaries built from the working tree (feature cli) run on generated files: weighted_model_count on s-expressions over up to 6 "
